@@ -1,4 +1,5 @@
 import Lean.Data.Json
+import Std.Data.HashMap
 import Gsp.Model.Poseidon
 import Gsp.Model.Hasher
 import Gsp.Model.Xsd
@@ -148,18 +149,34 @@ def proofJ (p : Smt.Proof) : List (String × Json) :=
   [("ex", Json.bool p.existence), ("sib", Json.arr (p.siblings.map natJ).toArray),
    ("aux", match p.aux with | none => Json.null | some (a, b) => Json.arr #[natJ a, natJ b])]
 
+/-- the same hasher with `hashBytes` tabulated for the given strings (pointwise equal to `h`) -/
+def cachedHasher (h : Hasher) (strs : List String) : Hasher :=
+  let tbl : Std.HashMap String (Option Nat) :=
+    strs.foldl (fun m s => if m.contains s then m else m.insert s (h.hashBytes s.toUTF8.toList)) {}
+  { h with hashBytes := fun bs =>
+      match String.fromUTF8? ⟨bs.toArray⟩ with
+      | some s => match tbl.get? s with
+        | some r => r
+        | none => h.hashBytes bs
+      | none => h.hashBytes bs }
+
+def dsStrings (ds : Rdf.Dataset) : List String :=
+  ds.flatMap fun (_, qs) => qs.map (·.p)
+
 def opMzDoc (k : Pos.Consts) (inp : Json) : Except String Json := do
-  let h ← hasherOf k (← inp.getObjVal? "h")
+  let h0 ← hasherOf k (← inp.getObjVal? "h")
   let ds ← datasetOf (← inp.getObjVal? "ds")
+  let h := cachedHasher h0 (dsStrings ds)
   let P := treeHash k
   let qs ← match jopt inp "queries" with
     | none => pure []
     | some qj => (← qj.getArr?).toList.mapM partsOf
-  match Mz.merklize (canonTable inp) P h ds with
+  match Mz.merklize (canonTable inp) h ds with
   | .error e => pure (errJ e)
   | .ok mz =>
+    let th := Smt.annotate P mz.tree
     let qres := qs.map fun q =>
-      match Mz.proof P h mz q with
+      match Mz.proofH P h mz th q with
       | .error e => errJ e
       | .ok r =>
         let vh : Json := match r.value with
@@ -172,7 +189,7 @@ def opMzDoc (k : Pos.Consts) (inp : Json) : Except String Json := do
         Json.mkObj (proofJ r.proof ++ [("kind", kind), ("vh", vh), ("dt", ent)])
     pure (okJ (Json.mkObj [
       ("entries", Json.arr (mz.kvs.map (fun x => entryJ x.entry)).toArray),
-      ("root", natJ (Mz.root P mz)),
+      ("root", natJ (Smt.TH.hash P th)),
       ("leaves", Json.num (Smt.leaves mz.tree).length),
       ("q", Json.arr qres.toArray)]))
 
